@@ -5,7 +5,7 @@
     state and the abstract (phase, transaction) state, preserved by every round
     of the command loop; the facts about the commands[] table that the proof
     needs are checked by computation on the table regenerated from the C. *)
-From Qv Require Import Common.Bytes Gen.GenNetio Gen.GenSession Model.NetRead Model.Session Spec.SessionSpec Proofs.AuthSync Proofs.EsmtpSync.
+From Qv Require Import Common.Bytes Gen.GenNetio Gen.GenSession Model.NetRead Model.Session Spec.SessionSpec Proofs.RelayDecide Proofs.AuthSync Proofs.EsmtpSync.
 From Coq Require Import Lia ZArith.
 
 (** ---------- the commands[] table, as far as the properties depend on it ---------- *)
@@ -71,11 +71,19 @@ Definition quiet (evs : list event) : Prop := forallb quiet_ev evs = true.
 Section Proofs.
 Variable o : oracles.
 
-(** the relay decision is cached in relayclient: 1 only after a positive lookup *)
-Definition Irel (rc : N) : Prop := rc = 1%N -> (0 <? o_relay o)%Z = true.
+(** the relay decision is cached in relayclient: 1 only after a positive lookup of the relay list or after tls_verify()
+    accepted a client certificate on this connection ([c]: the abstract machine has seen the note of that); and
+    xmitstat.tlsclient is a name only after such an acceptance *)
+Definition relkey (s : sstate) : N * option bytes := (relayclient s, tlsclient s).
+Definition Irel (c : bool) (k : N * option bytes) : Prop :=
+  (fst k = 1%N -> (0 <? o_relay o)%Z = true \/ c = true) /\ (snd k <> None -> c = true).
 
 Definition R (s : sstate) (a : astate) : Prop :=
-  Rc (comstate s) (mailfrom s) (rcpts s) (rcptcount s) (goodrcpt s) a /\ Irel (relayclient s).
+  Rc (comstate s) (mailfrom s) (rcpts s) (rcptcount s) (goodrcpt s) a /\ Irel (a_cert a) (relkey s).
+
+(** the abstract state with the certificate flag set to [b]; the events is_authenticated() emits do nothing else *)
+Definition set_cert (a : astate) (b : bool) : astate :=
+  {| a_phase := a_phase a; a_txn := a_txn a; a_stored := a_stored a; a_auth := a_auth a; a_esmtp := a_esmtp a; a_cert := b |}.
 
 Lemma trace_run_app e1 e2 a :
   trace_run o (e1 ++ e2) a = match trace_run o e1 a with Some a' => trace_run o e2 a' | None => None end.
@@ -122,9 +130,9 @@ Definition core_eq (s2 s : sstate) : Prop :=
 Lemma data_pending_core s : let s' := snd (data_pending s) in
   comstate s' = comstate s /\ mailfrom s' = mailfrom s /\ rcpts s' = rcpts s
   /\ rcptcount s' = rcptcount s /\ goodrcpt s' = goodrcpt s /\ esmtp s' = esmtp s /\ qcount s' = qcount s
-  /\ relayclient s' = relayclient s.
+  /\ relkey s' = relkey s.
 Proof.
-  unfold data_pending. destruct (inn (rd s)); [|simpl; tauto].
+  unfold data_pending, relkey. destruct (inn (rd s)); [|simpl; tauto].
   destruct (cur (en (rd s))); simpl; tauto.
 Qed.
 
@@ -162,22 +170,81 @@ Proof.
   unfold good. rewrite filter_app, map_app. simpl. destruct (snd x); reflexivity.
 Qed.
 
-Lemma relay_decide_spec s cls allowed s1 pre : relay_decide o s cls = (allowed, s1, pre) ->
-  Irel (relayclient s) ->
-  comstate s1 = comstate s /\ mailfrom s1 = mailfrom s /\ rcpts s1 = rcpts s
-  /\ rcptcount s1 = rcptcount s /\ goodrcpt s1 = goodrcpt s /\ Irel (relayclient s1)
-  /\ (pre = [] \/ pre = [Reply 421])
-  /\ (pre = [] -> allowed = true -> cls = RNotLocal -> (0 <? o_relay o)%Z = true \/ authed s = true).
+(** what is_authenticated() emits: the abstract machine only notes an accepted certificate; the queue checker stays idle *)
+Lemma pre_ok_run pre : forall a, pre_ok pre ->
+  trace_run o pre a = Some (set_cert a (a_cert a || has_cert pre)) /\ queue_run o pre QIdle = Some QIdle.
 Proof.
-  unfold relay_decide, Irel. intros H HI. destruct cls.
-  - inversion H; subst. repeat split; auto. discriminate.
-  - destruct (authed s) eqn:Eau. { inversion H; subst. repeat split; auto. }
-    destruct (N.eqb (relayclient s) 0) eqn:E0.
-    + destruct (Z.ltb (o_relay o) 0) eqn:Eneg.
-      * inversion H; subst. simpl. repeat split; auto; discriminate.
-      * destruct (Z.ltb 0 (o_relay o)) eqn:Epos; inversion H; subst; simpl; repeat split; auto; discriminate.
-    + inversion H; subst. repeat split; auto.
-      intros _ Hal _. apply N.eqb_eq in Hal. auto.
+  unfold pre_ok. induction pre as [|e r IH]; intros a Hp.
+  - cbn [trace_run queue_run has_cert existsb]. rewrite orb_false_r. destruct a; split; reflexivity.
+  - cbn [forallb] in Hp. apply andb_true_iff in Hp as [He Hr].
+    destruct e as [c|x y| | |n]; try discriminate.
+    + cbn [trace_run trace_step queue_run queue_step has_cert existsb is_cert_ev orb]. exact (IH a Hr).
+    + cbn [trace_run trace_step queue_run queue_step has_cert existsb is_cert_ev orb]. exact (IH a Hr).
+    + destruct n; try discriminate.
+      cbn [trace_run trace_step queue_run queue_step has_cert existsb is_cert_ev orb].
+      destruct (IH {| a_phase := a_phase a; a_txn := a_txn a; a_stored := a_stored a; a_auth := a_auth a; a_esmtp := a_esmtp a; a_cert := true |} Hr) as (H1 & H2).
+      rewrite H1, H2. cbn [a_cert orb]. rewrite orb_true_r. split; reflexivity.
+Qed.
+
+Lemma tls_verify_spec s r s2 : tls_verify o s = (r, s2) ->
+  relkey s2 = relkey s /\ comstate s2 = comstate s /\ mailfrom s2 = mailfrom s /\ rcpts s2 = rcpts s
+  /\ rcptcount s2 = rcptcount s /\ goodrcpt s2 = goodrcpt s.
+Proof.
+  unfold tls_verify. destruct (negb (o_tls o) || ssl_verified s || authed_client s); intros H; inversion H; subst; repeat split.
+Qed.
+
+(** is_authenticated(): the invariant of the cache survives; a positive answer for an address outside rcpthosts has a reason *)
+Lemma relay_decide_spec s cls res s1 pre c : relay_decide o s cls = (res, s1, pre) ->
+  Irel c (relkey s) ->
+  comstate s1 = comstate s /\ mailfrom s1 = mailfrom s /\ rcpts s1 = rcpts s
+  /\ rcptcount s1 = rcptcount s /\ goodrcpt s1 = goodrcpt s
+  /\ pre_ok pre
+  /\ Irel (c || has_cert pre) (relkey s1)
+  /\ (res = RD_ok true -> cls = RNotLocal -> (0 <? o_relay o)%Z = true \/ authed s = true \/ c || has_cert pre = true).
+Proof.
+  intros H HI. destruct (relay_decide_core _ _ _ _ _ _ H) as ((_ & C2 & _ & _ & C5 & C6 & C7 & C8 & _) & Hp).
+  split; [exact C2|]. split; [exact C5|]. split; [exact C6|]. split; [exact C7|]. split; [exact C8|]. split; [exact Hp|].
+  unfold relay_decide in H. destruct cls.
+  { inversion H; subst res s1 pre. cbn [has_cert existsb]. rewrite orb_false_r. split; [exact HI|]. discriminate. }
+  destruct HI as (HI1 & HI2).
+  destruct (authed_client s) eqn:Eau.
+  { inversion H; subst res s1 pre. cbn [has_cert existsb]. rewrite orb_false_r. split; [split; assumption|].
+    intros _ _. unfold authed_client in Eau. apply orb_true_iff in Eau as [E|E]; [auto|].
+    right; right. apply HI2. cbn [relkey snd]. destruct (tlsclient s); [discriminate|discriminate]. }
+  (* the relay list stage *)
+  assert (Htc : tlsclient s = None).
+  { unfold authed_client in Eau. apply orb_false_iff in Eau as [_ E]. destruct (tlsclient s); [discriminate|reflexivity]. }
+  set (p := if N.eqb (relayclient s) 0 then _ else _) in H.
+  assert (Hp1 : tlsclient (snd p) = None /\ (fst p = false -> relayclient (snd p) = 1%N -> (0 <? o_relay o)%Z = true \/ c = true)
+                /\ (fst p = true -> relayclient (snd p) <> 1%N)).
+  { unfold p. destruct (N.eqb (relayclient s) 0) eqn:E0; cbn [fst snd set_relayclient tlsclient relayclient].
+    - split; [exact Htc|]. split.
+      + intros _. destruct (Z.ltb 0 (o_relay o)); [auto|discriminate].
+      + intros En. destruct (Z.ltb 0 (o_relay o)) eqn:Epos; [|discriminate].
+        apply Z.ltb_lt in En. apply Z.ltb_lt in Epos. exfalso. apply (Z.lt_irrefl 0). apply (Z.lt_trans _ (o_relay o)); assumption.
+    - split; [exact Htc|]. split; [intros _ E1; apply HI1; exact E1|discriminate]. }
+  destruct p as [lerr sa]. cbn [fst snd] in Hp1. destruct Hp1 as (Htca & Hrel & Herr).
+  destruct lerr.
+  { inversion H; subst res s1 pre. cbn [has_cert existsb is_cert_ev orb]. rewrite orb_false_r. split; [|discriminate].
+    split; cbn [relkey fst snd]; [intros E; exfalso; exact (Herr eq_refl E)|rewrite Htca; congruence]. }
+  destruct (N.eqb (N.land (relayclient sa) 1) 0) eqn:Eland.
+  2:{ inversion H; subst res s1 pre. cbn [has_cert existsb]. rewrite orb_false_r.
+      split; [split; cbn [relkey fst snd]; [exact (Hrel eq_refl)|rewrite Htca; congruence]|].
+      intros Hal _. injection Hal as Hal'. apply N.eqb_eq in Hal'. destruct (Hrel eq_refl Hal'); auto. }
+  destruct (tls_verify o sa) as [r s2] eqn:Ev. destruct (tls_verify_spec _ _ _ Ev) as (Hk & _).
+  assert (Hrc2 : relayclient s2 = relayclient sa) by (unfold relkey in Hk; congruence).
+  assert (Htc2 : tlsclient s2 = None) by (unfold relkey in Hk; congruence).
+  assert (Hnot1 : relayclient s2 <> 1%N).
+  { rewrite Hrc2. intros E. rewrite E in Eland. discriminate. }
+  destruct r as [[|name|w h]|]; inversion H; subst res s1 pre.
+  - cbn [has_cert existsb]. rewrite orb_false_r. split; [split; cbn [relkey fst snd]; [intros E; contradiction|rewrite Htc2; congruence]|].
+    intros Hal _. injection Hal as Hal'. apply N.eqb_eq in Hal'. contradiction.
+  - cbn [has_cert existsb is_cert_ev orb]. rewrite orb_true_r. split; [split; auto|auto].
+  - assert (Hnc : has_cert ((if w then [Reply 454] else []) ++ match h with HEXIT => [Closed] | _ => [] end) = false)
+      by (destruct w, h; reflexivity).
+    rewrite Hnc, orb_false_r. split; [split; cbn [relkey fst snd]; [intros E; contradiction|rewrite Htc2; congruence]|discriminate].
+  - cbn [has_cert existsb]. rewrite orb_false_r. split; [split; cbn [relkey fst snd]; [intros E; contradiction|rewrite Htc2; congruence]|].
+    intros Hal _. injection Hal as Hal'. apply N.eqb_eq in Hal'. contradiction.
 Qed.
 
 Lemma Rc_some_phase c mf rc n g a : Rc c mf rc n g a -> (c = 32%N \/ c = 64%N) ->
@@ -202,10 +269,9 @@ Qed.
 Lemma h_rcpt_spec s a arg evs h s' : R s a -> a_auth a = authed s -> (comstate s = 32%N \/ comstate s = 64%N) ->
   h_rcpt o s arg = (evs, h, s') ->
   exists a', trace_run o evs a = Some a' /\ queue_run o evs QIdle = Some QIdle
-    /\ Irel (relayclient s')
+    /\ Irel (a_cert a') (relkey s')
     /\ match h with
        | H0 => Rc 64 (mailfrom s') (rcpts s') (rcptcount s') (goodrcpt s') a'
-       | HEXIT => False
        | _ => Rc (comstate s') (mailfrom s') (rcpts s') (rcptcount s') (goodrcpt s') a'
        end.
 Proof.
@@ -216,7 +282,7 @@ Proof.
   { intros Emax. pose proof limits_ok as HL.
     destruct (stored_pos_phase _ _ _ _ _ _ HR) as (Hp & Hc64); [destruct HR as (Hn & _); lia|].
     rewrite <- Hc64. exact HR. }
-  assert (KT : Irel (relayclient (tarpit s))
+  assert (KT : Irel (a_cert a) (relkey (tarpit s))
                /\ Rc (comstate (tarpit s)) (mailfrom (tarpit s)) (rcpts (tarpit s)) (rcptcount (tarpit s)) (goodrcpt (tarpit s)) a).
   { destruct (data_pending_core s) as (F1 & F2 & F3 & F4 & F5 & _ & _ & F8). unfold tarpit.
     now rewrite F1, F2, F3, F4, F5, F8. }
@@ -234,66 +300,93 @@ Proof.
     { inversion H; subst. exists a. split; [reflexivity|]. split; [reflexivity|]. split; [exact HI|].
       apply K452. now apply Nat.leb_le. }
     apply Nat.leb_gt in Emax.
-    destruct (relay_decide o s cls) as [[allowed s1] pre] eqn:Erel.
-    destruct (relay_decide_spec _ _ _ _ _ Erel HI) as (E1 & E2 & E3 & E4 & E5 & HI1 & Hpre & Hrelay).
-    assert (HR1 : Rc (comstate s1) (mailfrom s1) (rcpts s1) (rcptcount s1) (goodrcpt s1) a)
-      by (now rewrite E1, E2, E3, E4, E5).
-    assert (HT : forall s2 : sstate, s2 = s1 -> Irel (relayclient (tarpit s2))
-                 /\ Rc (comstate (tarpit s2)) (mailfrom (tarpit s2)) (rcpts (tarpit s2)) (rcptcount (tarpit s2)) (goodrcpt (tarpit s2)) a).
-    { intros s2 ->. destruct (data_pending_core s1) as (F1 & F2 & F3 & F4 & F5 & _ & _ & F8). unfold tarpit.
+    destruct (relay_decide o s cls) as [[res s1] pre] eqn:Erel.
+    destruct (relay_decide_spec _ _ _ _ _ _ Erel HI) as (E1 & E2 & E3 & E4 & E5 & Hpok & HI1 & Hrelay).
+    destruct (pre_ok_run pre a Hpok) as (Hrun & Hqrun).
+    set (cc := a_cert a || has_cert pre) in *.
+    set (a1 := set_cert a cc) in *.
+    assert (HR1 : Rc (comstate s1) (mailfrom s1) (rcpts s1) (rcptcount s1) (goodrcpt s1) a1)
+      by (rewrite E1, E2, E3, E4, E5; exact HR).
+    (* the events are what is_authenticated() wrote, then the rest: the abstract state behind the former is a1 *)
+    assert (Kpre : forall rest a', trace_run o rest a1 = Some a' -> queue_run o rest QIdle = Some QIdle ->
+              trace_run o (pre ++ rest) a = Some a' /\ queue_run o (pre ++ rest) QIdle = Some QIdle).
+    { intros rest a' T Q. rewrite trace_run_app, queue_run_app, Hrun, Hqrun. auto. }
+    assert (Kq : forall rest a', quiet rest -> a' = a1 ->
+              trace_run o (pre ++ rest) a = Some a' /\ queue_run o (pre ++ rest) QIdle = Some QIdle).
+    { intros rest a' Hq ->. apply Kpre; [now apply quiet_trace|now apply quiet_queue_idle]. }
+    assert (HT : Irel cc (relkey (tarpit s1))
+                 /\ Rc (comstate (tarpit s1)) (mailfrom (tarpit s1)) (rcpts (tarpit s1)) (rcptcount (tarpit s1)) (goodrcpt (tarpit s1)) a1).
+    { destruct (data_pending_core s1) as (F1 & F2 & F3 & F4 & F5 & _ & _ & F8). unfold tarpit.
       now rewrite F1, F2, F3, F4, F5, F8. }
-    destruct pre as [|p pre'].
-    2:{ inversion H; subst. destruct Hpre as [Hp|Hp]; [discriminate|]. inversion Hp; subst.
-        exists a. split; [reflexivity|]. split; [reflexivity|]. split; [exact HI1|exact HR1]. }
+    destruct res as [allowed|hf].
+    2:{ inversion H; subst evs h s'. exists a1. rewrite <- (app_nil_r pre).
+        destruct (Kq [] a1 eq_refl eq_refl) as (T & Q). split; [exact T|]. split; [exact Q|]. split; [exact HI1|].
+        pose proof (relay_decide_fail _ _ _ _ _ _ Erel) as Hnz. destruct hf; try exact HR1. congruence. }
     destruct (negb allowed) eqn:Eal.
-    { inversion H; subst. exists a. split; [reflexivity|]. split; [reflexivity|]. exact (HT s1 eq_refl). }
-    apply negb_false_iff in Eal.
+    { inversion H; subst evs h s'. exists a1. destruct (Kq [Reply 551] a1 eq_refl eq_refl) as (T & Q).
+      split; [exact T|]. split; [exact Q|]. exact HT. }
+    apply negb_false_iff in Eal. subst allowed.
     set (mx := match cls with RNotLocal => o_mx o addr | RLocal => 0 end) in H.
-    destruct (Nat.eqb mx 1). { inversion H; subst. exists a. split; [reflexivity|]. split; [reflexivity|]. split; [exact HI1|exact HR1]. }
-    destruct (Nat.eqb mx 2). { inversion H; subst. exists a. split; [reflexivity|]. split; [reflexivity|]. split; [exact HI1|exact HR1]. }
-    destruct more as [m|]. { inversion H; subst. exists a. split; [reflexivity|]. split; [reflexivity|]. split; [exact HI1|exact HR1]. }
+    destruct (Nat.eqb mx 1).
+    { inversion H; subst evs h s'. exists a1. destruct (Kq [Reply 451] a1 eq_refl eq_refl) as (T & Q).
+      split; [exact T|]. split; [exact Q|]. split; [exact HI1|exact HR1]. }
+    destruct (Nat.eqb mx 2).
+    { inversion H; subst evs h s'. exists a1. destruct (Kq [Reply 556] a1 eq_refl eq_refl) as (T & Q).
+      split; [exact T|]. split; [exact Q|]. split; [exact HI1|exact HR1]. }
+    destruct more as [m|].
+    { inversion H; subst evs h s'. exists a1. rewrite <- (app_nil_r pre). destruct (Kq [] a1 eq_refl eq_refl) as (T & Q).
+      split; [exact T|]. split; [exact Q|]. split; [exact HI1|exact HR1]. }
     destruct (Rc_some_phase _ _ _ _ _ _ HR Hc) as (f & rs & Htxn).
-    destruct HR1 as (Hn & Hl & Hg & Hph & Htx). rewrite Htxn in Htx.
+    assert (Htxn1 : a_txn a1 = Some (f, rs)) by exact Htxn.
+    destruct HR1 as (Hn & Hl & Hg & Hph & Htx). rewrite Htxn1 in Htx.
     destruct Htx as (Hphase & Hmf & Hgood & Hb).
     destruct (Nat.ltb 0 (rcptcount s1) && match mailfrom s1 with [] => true | _ :: _ => false end) eqn:Eb2.
     + (* second recipient of a bounce *)
       apply andb_true_iff in Eb2 as (Epos & Emf). apply Nat.ltb_lt in Epos.
       assert (Hf : f = []) by (rewrite <- Hmf; destruct (mailfrom s1); [reflexivity|discriminate]).
       inversion H; subst evs h s'. clear H.
-      eexists. split; [cbn [trace_run trace_step]; rewrite Htxn; reflexivity|].
-      split; [reflexivity|].
+      set (a2 := {| a_phase := PRcpt; a_txn := Some (f, []); a_stored := S (a_stored a); a_auth := a_auth a; a_esmtp := a_esmtp a; a_cert := cc |}).
+      assert (T : trace_run o [Note NWithdraw; Reply 550] a1 = Some a2) by (cbn [trace_run trace_step]; rewrite Htxn1; reflexivity).
+      destruct (Kpre _ _ T eq_refl) as (T' & Q'). exists a2. split; [exact T'|]. split; [exact Q'|].
       set (sb := {| rd := rd s1; comstate := _; rcpts := _ |}).
       destruct (data_pending_core sb) as (F1 & F2 & F3 & F4 & F5 & _ & _ & F8). unfold tarpit.
       rewrite F1, F2, F3, F4, F5, F8. unfold sb. cbn [comstate mailfrom rcpts rcptcount goodrcpt relayclient].
       split; [exact HI1|].
-      destruct (stored_pos_phase (comstate s1) (mailfrom s1) (rcpts s1) (rcptcount s1) (goodrcpt s1) a) as (Hp & Hc64);
-        [unfold Rc; rewrite Htxn; auto 10|lia|].
+      destruct (stored_pos_phase (comstate s1) (mailfrom s1) (rcpts s1) (rcptcount s1) (goodrcpt s1) a1) as (Hp & Hc64);
+        [unfold Rc; rewrite Htxn1; auto 10|lia|].
       (* all recipients stored so far are not ok afterwards *)
       assert (Hallfalse : good (match rcpts s1 with (a0, _) :: t => (a0, false) :: t | [] => [] end ++ [(addr, false)]) = []).
       { rewrite good_app. simpl. rewrite app_nil_r.
         destruct (Hb Hf) as [Hle|Hrs].
-        - destruct (rcpts s1) as [|[a0 b0] [|y t]]; simpl in *; try reflexivity; lia.
+        - change (a_stored a1) with (a_stored a) in *.
+          destruct (rcpts s1) as [|[a0 b0] [|y t]]; simpl in *; try reflexivity; lia.
         - rewrite Hrs in Hgood. destruct (rcpts s1) as [|[a0 b0] t]; [reflexivity|].
           unfold good in *. simpl in *. destruct b0; [discriminate|exact Hgood]. }
-      unfold Rc. cbn [a_stored a_phase a_txn]. rewrite Hallfalse.
+      change (a_stored a1) with (a_stored a) in *. change (a_phase a1) with (a_phase a) in *.
+      unfold Rc, a2. cbn [a_stored a_phase a_txn]. rewrite Hallfalse.
       repeat split; try lia; auto.
       * rewrite app_length. simpl.
         destruct (rcpts s1) as [|[a0 b0] t]; simpl in *; lia.
     + (* accepted *)
       inversion H; subst evs h s'. clear H.
+      change (a_stored a1) with (a_stored a) in *. change (a_phase a1) with (a_phase a) in *.
       assert (Hnb : (match f, a_stored a with [], S _ => true | _, _ => false end) = false).
       { apply andb_false_iff in Eb2. destruct f; [|reflexivity].
         destruct (a_stored a) eqn:Es; [reflexivity|].
         destruct Eb2 as [E|E]; [apply Nat.ltb_ge in E; lia|rewrite Hmf in E; discriminate]. }
       assert (Hmax : Nat.leb MAXRCPT (a_stored a) = false) by (apply Nat.leb_gt; lia).
-      assert (Hrel : (match cls with RNotLocal => negb (0 <? o_relay o)%Z && negb (a_auth a) | RLocal => false end) = false).
-      { destruct cls; [reflexivity|]. destruct (Hrelay eq_refl Eal eq_refl) as [Hr|Hr]; [rewrite Hr; reflexivity|].
-        rewrite HA, Hr. apply andb_false_r. }
-      eexists. split.
-      { cbn [trace_run trace_step]. rewrite Htxn. rewrite Hnb, Hmax, Hrel. reflexivity. }
-      split; [reflexivity|]. cbn [comstate mailfrom rcpts rcptcount goodrcpt relayclient].
+      assert (Hrel : (match cls with RNotLocal => negb (0 <? o_relay o)%Z && negb (a_auth a) && negb cc | RLocal => false end) = false).
+      { destruct cls; [reflexivity|]. destruct (Hrelay eq_refl eq_refl) as [Hr|[Hr|Hr]].
+        - rewrite Hr. reflexivity.
+        - rewrite HA, Hr. rewrite andb_false_r. reflexivity.
+        - fold cc in Hr. rewrite Hr. apply andb_false_r. }
+      set (a2 := {| a_phase := PRcpt; a_txn := Some (f, rs ++ [addr]); a_stored := S (a_stored a); a_auth := a_auth a; a_esmtp := a_esmtp a; a_cert := cc |}).
+      assert (T : trace_run o [Note (NRcpt addr cls); Reply 250] a1 = Some a2).
+      { cbn [trace_run trace_step a1 set_cert a_txn a_stored a_auth a_cert]. rewrite Htxn. rewrite Hnb, Hmax, Hrel. reflexivity. }
+      destruct (Kpre _ _ T eq_refl) as (T' & Q'). exists a2. split; [exact T'|]. split; [exact Q'|].
+      cbn [comstate mailfrom rcpts rcptcount goodrcpt relayclient].
       split; [exact HI1|].
-      unfold Rc. cbn [a_stored a_phase a_txn]. rewrite good_app. cbn [snd fst].
+      unfold Rc, a2. cbn [a_stored a_phase a_txn]. rewrite good_app. cbn [snd fst].
       repeat split; try lia; auto.
       * rewrite app_length. simpl. lia.
       * rewrite app_length. simpl. lia.
@@ -303,6 +396,10 @@ Proof.
 Qed.
 
 (** ---------- freedata: the boundary ---------- *)
+(** freedata() forgets the certificate name, not the cached decision *)
+Lemma Irel_freedata c s : Irel c (relkey s) -> Irel c (relkey (freedata s)).
+Proof. intros [H1 H2]. split; cbn [relkey freedata fst snd relayclient tlsclient]; [exact H1|congruence]. Qed.
+
 Lemma boundary_spec s a : R s a ->
   exists a', trace_step o (Note NBoundary) a = Some a'
     /\ a_txn a' = None /\ a_stored a' = 0
@@ -317,7 +414,7 @@ Proof.
   assert (Hcs : comstate s = 1%N \/ comstate s = 8%N \/ comstate s = 16%N \/ comstate s = 32%N \/ comstate s = 64%N).
   { destruct (a_phase a); intuition. }
   split; [|split].
-  - split; [|exact HI]. unfold freedata, Rc. cbn [comstate mailfrom rcpts rcptcount goodrcpt a_stored a_phase a_txn].
+  - split; [|exact (Irel_freedata _ _ HI)]. unfold freedata, Rc. cbn [comstate mailfrom rcpts rcptcount goodrcpt a_stored a_phase a_txn].
     repeat split; auto.
     + destruct (a_phase a) eqn:Ep.
       * rewrite Hph. reflexivity.
@@ -330,26 +427,29 @@ Proof.
 Qed.
 
 (** ---------- MAIL ---------- *)
-Lemma subm_gate_spec s al s1 pre : subm_gate o s = (al, s1, pre) -> Irel (relayclient s) ->
+Lemma subm_gate_spec s res s1 pre c : subm_gate o s = (res, s1, pre) -> Irel c (relkey s) ->
   comstate s1 = comstate s /\ mailfrom s1 = mailfrom s /\ rcpts s1 = rcpts s
-  /\ rcptcount s1 = rcptcount s /\ goodrcpt s1 = goodrcpt s /\ Irel (relayclient s1)
-  /\ (pre = [] \/ pre = [Reply 421])
-  /\ (pre = [] -> al = true -> o_submission o = true -> (0 <? o_relay o)%Z = true \/ authed s = true).
+  /\ rcptcount s1 = rcptcount s /\ goodrcpt s1 = goodrcpt s
+  /\ pre_ok pre
+  /\ Irel (c || has_cert pre) (relkey s1)
+  /\ (res = RD_ok true -> o_submission o = true -> (0 <? o_relay o)%Z = true \/ authed s = true \/ c || has_cert pre = true).
 Proof.
   unfold subm_gate. intros H HI. destruct (o_submission o).
-  - destruct (relay_decide_spec _ _ _ _ _ H HI) as (E1 & E2 & E3 & E4 & E5 & HI1 & Hpre & Hent).
-    repeat split; auto.
-  - inversion H; subst. repeat split; auto. discriminate.
+  - destruct (relay_decide_spec _ _ _ _ _ _ H HI) as (E1 & E2 & E3 & E4 & E5 & Hp & HI1 & Hent).
+    split; [exact E1|]. split; [exact E2|]. split; [exact E3|]. split; [exact E4|]. split; [exact E5|]. split; [exact Hp|].
+    split; [exact HI1|]. intros Hres _. exact (Hent Hres eq_refl).
+  - inversion H; subst. cbn [has_cert existsb]. rewrite orb_false_r.
+    split; [reflexivity|]. split; [reflexivity|]. split; [reflexivity|]. split; [reflexivity|]. split; [reflexivity|].
+    split; [reflexivity|]. split; [exact HI|]. discriminate.
 Qed.
 
 (** MAIL FROM; on the submission port it passes only the gate of is_authenticated() *)
 Lemma h_from_spec s a arg len evs h s' : R s a -> a_auth a = authed s -> (comstate s = 8%N \/ comstate s = 16%N) ->
   h_from o s arg len = (evs, h, s') ->
   exists a', trace_run o evs a = Some a' /\ queue_run o evs QIdle = Some QIdle
-    /\ Irel (relayclient s')
+    /\ Irel (a_cert a') (relkey s')
     /\ match h with
        | H0 => Rc 32 (mailfrom s') (rcpts s') (rcptcount s') (goodrcpt s') a'
-       | HEXIT => False
        | _ => Rc (comstate s') (mailfrom s') (rcpts s') (rcptcount s') (goodrcpt s') a'
        end.
 Proof.
@@ -364,48 +464,59 @@ Proof.
   set (sc := {| rd := rd s; comstate := comstate s; mailfrom := []; thisbytes := 0%N; rcpts := rcpts s |}) in H.
   assert (HRc : Rc (comstate sc) (mailfrom sc) (rcpts sc) (rcptcount sc) (goodrcpt sc) a).
   { unfold sc. cbn [comstate mailfrom rcpts rcptcount goodrcpt]. unfold Rc. rewrite Hp, Etx. auto 10. }
-  assert (HIc : Irel (relayclient sc)) by exact HI.
+  assert (HIc : Irel (a_cert a) (relkey sc)) by exact HI.
   assert (HAc : authed sc = authed s) by reflexivity.
-  (* everything that leaves the (cleared) transaction state alone *)
-  assert (K : forall (s1 : sstate) e c, comstate s1 = comstate sc -> mailfrom s1 = mailfrom sc -> rcpts s1 = rcpts sc ->
-            rcptcount s1 = rcptcount sc -> goodrcpt s1 = goodrcpt sc -> Irel (relayclient s1) -> e = [] \/ e = [Reply c] ->
-            exists a', trace_run o e a = Some a' /\ queue_run o e QIdle = Some QIdle /\ Irel (relayclient s1)
-              /\ Rc (comstate s1) (mailfrom s1) (rcpts s1) (rcptcount s1) (goodrcpt s1) a').
-  { intros s1 e c E1 E2 E3 E4 E5 HI1 [->| ->]; exists a; rewrite E1, E2, E3, E4, E5; auto. }
-  assert (KT : forall (s1 : sstate) e c, comstate s1 = comstate sc -> mailfrom s1 = mailfrom sc -> rcpts s1 = rcpts sc ->
-            rcptcount s1 = rcptcount sc -> goodrcpt s1 = goodrcpt sc -> Irel (relayclient s1) -> e = [] \/ e = [Reply c] ->
-            exists a', trace_run o e a = Some a' /\ queue_run o e QIdle = Some QIdle /\ Irel (relayclient (tarpit s1))
-              /\ Rc (comstate (tarpit s1)) (mailfrom (tarpit s1)) (rcpts (tarpit s1)) (rcptcount (tarpit s1)) (goodrcpt (tarpit s1)) a').
-  { intros s1 e c E1 E2 E3 E4 E5 HI1 He.
-    destruct (data_pending_core s1) as (F1 & F2 & F3 & F4 & F5 & _ & _ & F8). unfold tarpit.
-    rewrite F1, F2, F3, F4, F5, F8. apply (K s1 e c); auto. }
-  destruct (o_addr o false arg) as [| | |addr more cls]; [inversion H; subst; apply (K sc [] 0%N); auto| | |];
-       destruct (subm_gate o sc) as [[al s1] pre] eqn:Eg;
-       destruct (subm_gate_spec _ _ _ _ Eg HIc) as (E1 & E2 & E3 & E4 & E5 & HI1 & Hpre & Hent);
-       (destruct pre as [|p pre'];
-        [|inversion H; subst evs h s'; destruct Hpre as [E|E]; [discriminate|]; inversion E; subst; apply (K s1 [Reply 421] 421%N); auto]);
-       (destruct (negb al) eqn:Eal; [inversion H; subst evs h s'; apply (K s1 [Reply 550] 550%N); auto|]).
-  - inversion H; subst evs h s'. apply (KT s1 [Reply 501] 501%N); auto.
-  - inversion H; subst evs h s'. apply (KT s1 [Reply 550] 550%N); auto.
-  - apply negb_false_iff in Eal.
+  destruct (o_addr o false arg) as [| | |addr more cls] eqn:Eaddr.
+  { inversion H; subst. exists a. split; [reflexivity|]. split; [reflexivity|]. split; [exact HIc|exact HRc]. }
+  all: destruct (subm_gate o sc) as [[res s1] pre] eqn:Eg;
+       destruct (subm_gate_spec _ _ _ _ _ Eg HIc) as (E1 & E2 & E3 & E4 & E5 & Hpok & HI1 & Hent);
+       destruct (pre_ok_run pre a Hpok) as (Hrun & Hqrun);
+       set (cc := a_cert a || has_cert pre) in *; set (a1 := set_cert a cc) in *.
+  all: assert (HR1 : Rc (comstate s1) (mailfrom s1) (rcpts s1) (rcptcount s1) (goodrcpt s1) a1) by (rewrite E1, E2, E3, E4, E5; exact HRc).
+  (* everything that leaves the (cleared) transaction state alone: what the gate wrote, then at most one reply *)
+  all: assert (K : forall e c, e = [] \/ e = [Reply c] ->
+            exists a', trace_run o (pre ++ e) a = Some a' /\ queue_run o (pre ++ e) QIdle = Some QIdle /\ Irel (a_cert a') (relkey s1)
+              /\ Rc (comstate s1) (mailfrom s1) (rcpts s1) (rcptcount s1) (goodrcpt s1) a')
+         by (intros e c He; exists a1; rewrite trace_run_app, queue_run_app, Hrun, Hqrun; destruct He as [->| ->]; auto).
+  all: assert (KT : forall e c, e = [] \/ e = [Reply c] ->
+            exists a', trace_run o (pre ++ e) a = Some a' /\ queue_run o (pre ++ e) QIdle = Some QIdle /\ Irel (a_cert a') (relkey (tarpit s1))
+              /\ Rc (comstate (tarpit s1)) (mailfrom (tarpit s1)) (rcpts (tarpit s1)) (rcptcount (tarpit s1)) (goodrcpt (tarpit s1)) a')
+         by (intros e c He; destruct (data_pending_core s1) as (F1 & F2 & F3 & F4 & F5 & _ & _ & F8); unfold tarpit;
+             rewrite F1, F2, F3, F4, F5, F8; apply (K e c He)).
+  all: (destruct res as [al|hf];
+        [|inversion H; subst evs h s'; pose proof (subm_gate_fail _ _ _ _ _ Eg) as Hnz; rewrite <- (app_nil_r pre);
+          destruct (K [] 0%N (or_introl eq_refl)) as (a' & T & Q & I' & R'); exists a'; split; [exact T|]; split; [exact Q|]; split; [exact I'|];
+          destruct hf; try exact R'; congruence]).
+  all: (destruct (negb al) eqn:Eal; [inversion H; subst evs h s'; apply (K [Reply 550] 550%N); auto|]).
+  - inversion H; subst evs h s'. apply (KT [Reply 501] 501%N); auto.
+  - inversion H; subst evs h s'. apply (KT [Reply 550] 550%N); auto.
+  - apply negb_false_iff in Eal. subst al.
+    assert (Knil : exists a', trace_run o pre a = Some a' /\ queue_run o pre QIdle = Some QIdle /\ Irel (a_cert a') (relkey s1)
+              /\ Rc (comstate s1) (mailfrom s1) (rcpts s1) (rcptcount s1) (goodrcpt s1) a')
+      by (exists a1; auto).
     destruct (if esmtp s1 then None else more).
-    { inversion H; subst evs h s'. apply (K s1 [] 0%N); auto. }
+    { inversion H; subst evs h s'. exact Knil. }
     destruct (match more with Some m => o_ext o m | None => Ext_ok 0 0 None end) as [tb bonus body8| |].
-    2:{ inversion H; subst evs h s'. apply (K s1 [] 0%N); auto. }
-    2:{ inversion H; subst evs h s'. apply (K s1 [] 0%N); auto. }
-    destruct (Nat.ltb (CMD_LINE_MAX + bonus) len). { inversion H; subst evs h s'. apply (K s1 [] 0%N); auto. }
+    2:{ inversion H; subst evs h s'. exact Knil. }
+    2:{ inversion H; subst evs h s'. exact Knil. }
+    destruct (Nat.ltb (CMD_LINE_MAX + bonus) len). { inversion H; subst evs h s'. exact Knil. }
     destruct (negb (N.eqb (o_databytes o) 0) && N.ltb (o_databytes o) tb).
-    { inversion H; subst evs h s'. apply (K s1 [Reply 452] 452%N); auto. }
+    { inversion H; subst evs h s'. apply (K [Reply 452] 452%N); auto. }
     inversion H; subst evs h s'. clear H.
     (* the gate of the submission port is what the specification demands *)
-    assert (Hgate : o_submission o && negb (0 <? o_relay o)%Z && negb (a_auth a) = false).
+    assert (Hgate : o_submission o && negb (0 <? o_relay o)%Z && negb (a_auth a) && negb cc = false).
     { destruct (o_submission o) eqn:Es; [|reflexivity]. cbn [andb].
-      destruct (Hent eq_refl Eal eq_refl) as [Hr|Hr]; [rewrite Hr; reflexivity|].
-      rewrite HA, <- HAc, Hr. apply andb_false_r. }
-    eexists. split; [cbn [trace_run trace_step]; rewrite Hp, Hgate; reflexivity|].
-    split; [reflexivity|]. cbn [comstate mailfrom rcpts rcptcount goodrcpt relayclient].
+      destruct (Hent eq_refl eq_refl) as [Hr|[Hr|Hr]].
+      - rewrite Hr. reflexivity.
+      - rewrite HA, <- HAc, Hr. rewrite andb_false_r. reflexivity.
+      - fold cc in Hr. rewrite Hr. apply andb_false_r. }
+    set (a2 := {| a_phase := PMail; a_txn := Some (addr, []); a_stored := 0; a_auth := a_auth a; a_esmtp := a_esmtp a; a_cert := cc |}).
+    assert (T : trace_run o [Note (NMail addr); Reply 250] a1 = Some a2).
+    { cbn [trace_run trace_step a1 set_cert a_phase a_auth a_cert]. rewrite Hp, Hgate. reflexivity. }
+    exists a2. split; [rewrite trace_run_app, Hrun; exact T|].
+    split; [rewrite queue_run_app, Hqrun; reflexivity|]. cbn [comstate mailfrom rcpts rcptcount goodrcpt relayclient].
     split; [exact HI1|]. rewrite E3, E4. unfold sc. cbn [rcpts rcptcount].
-    unfold Rc. cbn [a_stored a_phase a_txn]. rewrite Hrc in *. simpl in Hl.
+    unfold Rc, a2. cbn [a_stored a_phase a_txn]. rewrite Hrc in *. simpl in Hl.
     repeat split; auto; try lia.
 Qed.
 
@@ -414,7 +525,7 @@ Lemma sync_pipelining_spec f s sp s2 : sync_pipelining f s = (sp, s2) ->
   (forall evs, sp = Some evs -> quiet evs)
   /\ comstate s2 = comstate s /\ mailfrom s2 = mailfrom s /\ rcpts s2 = rcpts s
   /\ rcptcount s2 = rcptcount s /\ goodrcpt s2 = goodrcpt s /\ esmtp s2 = esmtp s /\ qcount s2 = qcount s
-  /\ relayclient s2 = relayclient s.
+  /\ relkey s2 = relkey s.
 Proof.
   unfold sync_pipelining.
   destruct (data_pending s) as [p sd] eqn:Ed.
@@ -426,7 +537,7 @@ Proof.
   { intros H; inversion H; subst. split; [|repeat split; congruence].
     intros evs E; inversion E; subst. unfold quiet. cbn [forallb quiet_ev andb]. apply wait_for_quit_quiet. }
   destruct (net_read (rd sd)) as [it r'].
-  destruct it; intros H; inversion H; subst; (split; [|cbn [set_rd comstate mailfrom rcpts rcptcount goodrcpt esmtp qcount relayclient]; repeat split; congruence]);
+  destruct it; intros H; inversion H; subst; (split; [|change (relkey (set_rd sd r')) with (relkey sd); cbn [set_rd comstate mailfrom rcpts rcptcount goodrcpt esmtp qcount]; repeat split; congruence]);
     intros evs E; inversion E; subst; try reflexivity;
     unfold quiet; cbn [forallb quiet_ev andb]; apply wait_for_quit_quiet.
 Qed.
@@ -478,7 +589,7 @@ Qed.
 Lemma h_data_spec f s a evs h s' : R s a -> comstate s = 64%N ->
   h_data f o s = (evs, h, s') ->
   exists a', trace_run o evs a = Some a'
-    /\ Irel (relayclient s')
+    /\ Irel (a_cert a') (relkey s')
     /\ match h with
        | HEXIT => queue_run o evs QIdle <> None
        | HEMSGSIZE | HE2BIG => queue_run o evs QIdle = Some QFailed
@@ -513,22 +624,24 @@ Proof.
   set (sq := {| rd := rd s2; comstate := comstate s2; qcount := S k; rcpts := rcpts s2; mailfrom := mailfrom s2 |}) in H.
   destruct (data_loop f o _ (rd sq) _) as [de r'] eqn:Edl.
   (* the abstract state after the boundary *)
-  set (ab := {| a_phase := PHelo; a_txn := None; a_stored := 0; a_auth := a_auth a; a_esmtp := a_esmtp a |}).
+  set (ab := {| a_phase := PHelo; a_txn := None; a_stored := 0; a_auth := a_auth a; a_esmtp := a_esmtp a; a_cert := a_cert a |}).
+  assert (HI2 : Irel (a_cert a) (relkey s2)) by (rewrite G8; exact HI).
   assert (Htr1 : trace_run o [Note (NData k); Reply 354] a = Some a).
   { cbn [trace_run trace_step]. rewrite Htxn, Ers. reflexivity. }
   assert (Hbd : trace_step o (Note NBoundary) a = Some ab).
   { cbn [trace_step]. rewrite Hphr. reflexivity. }
   (* the state after freedata, whatever the reader did *)
   assert (Hfree : forall r2, let sf := freedata (set_rd (set_rd sq r') r2) in
-            Irel (relayclient sf) /\ comstate sf = helo_state (esmtp sf)
+            Irel (a_cert a) (relkey sf) /\ comstate sf = helo_state (esmtp sf)
             /\ Rc (comstate sf) (mailfrom sf) (rcpts sf) (rcptcount sf) (goodrcpt sf) ab).
   { intros r2 sf. unfold sf, freedata, set_rd, sq.
+    split; [exact (Irel_freedata _ (set_rd (set_rd sq r') r2) HI2)|].
     cbn [comstate mailfrom rcpts rcptcount goodrcpt relayclient esmtp].
-    rewrite G1, Hc, G8. split; [exact HI|]. split; [reflexivity|].
+    rewrite G1, Hc. split; [reflexivity|].
     unfold Rc, ab. cbn [a_stored a_phase a_txn]. unfold helo_state.
     repeat split; auto. destruct (esmtp s2); auto. }
   assert (Hfree1 : let sf := freedata (set_rd sq r') in
-            Irel (relayclient sf) /\ comstate sf = helo_state (esmtp sf)
+            Irel (a_cert a) (relkey sf) /\ comstate sf = helo_state (esmtp sf)
             /\ Rc (comstate sf) (mailfrom sf) (rcpts sf) (rcptcount sf) (goodrcpt sf) ab).
   { exact (Hfree r'). }
   destruct de as [msg sz seen|l seen|l seen|big l|lw|code lr| |].
@@ -562,13 +675,13 @@ Proof.
     destruct alive; inversion H; subst evs h s'; clear H.
     + exists ab. split; [cbn [trace_run trace_step]; rewrite Htxn, Ers, Hphr; reflexivity|].
       split; [exact HIf|]. split; [reflexivity|exact HRf].
-    + exists a. split; [exact Htr1|]. split; [cbn [set_rd relayclient sq]; now rewrite G8|].
+    + exists a. split; [exact Htr1|]. split; [exact HI2|].
       simpl. discriminate.
   - destruct (drain f r' l) as [alive r2]. destruct (Hfree r2) as (HIf & Hcf & HRf).
     destruct alive; inversion H; subst evs h s'; clear H.
     + exists ab. split; [cbn [trace_run trace_step]; rewrite Htxn, Ers, Hphr; reflexivity|].
       split; [exact HIf|]. split; [reflexivity|exact HRf].
-    + exists a. split; [exact Htr1|]. split; [cbn [set_rd relayclient sq]; now rewrite G8|].
+    + exists a. split; [exact Htr1|]. split; [exact HI2|].
       simpl. discriminate.
   - destruct (drain f r' l) as [alive r2]. destruct (Hfree r2) as (HIf & Hcf & HRf).
     destruct alive; cbn [negb] in H.
@@ -576,14 +689,14 @@ Proof.
         (split; [cbn [trace_run trace_step]; rewrite Htxn, Ers, Hphr; reflexivity|]);
         (split; [exact HIf|]); (split; [reflexivity|exact HRf]).
     + inversion H; subst evs h s'; clear H.
-      exists a. split; [exact Htr1|]. split; [cbn [set_rd relayclient sq]; now rewrite G8|].
+      exists a. split; [exact Htr1|]. split; [exact HI2|].
       simpl. discriminate.
   - (* a write to qmail-queue failed *)
     destruct (drain_break f r' lw) as [[alive rerr] r2]. destruct (Hfree r2) as (HIf & Hcf & HRf).
     destruct alive; cbn [negb] in H; inversion H; subst evs h s'; clear H.
     + exists ab. split; [cbn [trace_run trace_step]; rewrite Htxn, Ers, Hphr; reflexivity|].
       split; [exact HIf|]. split; [reflexivity|exact HRf].
-    + exists a. split; [exact Htr1|]. split; [cbn [set_rd relayclient sq]; now rewrite G8|].
+    + exists a. split; [exact Htr1|]. split; [exact HI2|].
       simpl. discriminate.
   - (* refused by a header check or as a Delivered-To: loop *)
     destruct (drain f r' lr) as [alive r2]. destruct (Hfree r2) as (HIf & Hcf & HRf).
@@ -596,14 +709,14 @@ Proof.
         - inversion Edl; subst. unfold dread in Ed. destruct (net_read (rd sq)) as [it rr]. destruct it; inversion Ed.
         - apply hdr_loop_reject in Edl. destruct Edl as [->| ->]; reflexivity. }
       split; [simpl; rewrite Hc400; reflexivity|exact HRf].
-    + exists a. split; [exact Htr1|]. split; [cbn [set_rd relayclient sq]; now rewrite G8|].
+    + exists a. split; [exact Htr1|]. split; [exact HI2|].
       simpl. discriminate.
   - inversion H; subst evs h s'; clear H.
-    exists a. split; [exact Htr1|]. split; [cbn [set_rd relayclient sq]; now rewrite G8|].
+    exists a. split; [exact Htr1|]. split; [exact HI2|].
     cbn [queue_run queue_step N.eqb]. discriminate.
   - inversion H; subst evs h s'; clear H.
     exists a. split; [cbn [trace_run trace_step]; rewrite Htxn, Ers; reflexivity|].
-    split; [cbn [set_rd relayclient sq]; now rewrite G8|].
+    split; [exact HI2|].
     cbn [queue_run queue_step N.eqb]. discriminate.
 Qed.
 
@@ -619,7 +732,7 @@ Definition RcS (c : N) (s : sstate) (a : astate) : Prop :=
 
 (** the post-condition of one dispatched command *)
 Definition post (evs : list event) (h : hres) (s1 : sstate) (a' : astate) : Prop :=
-  Irel (relayclient s1)
+  Irel (a_cert a') (relkey s1)
   /\ match h with
      | HEXIT => queue_run o evs QIdle <> None
      | HEMSGSIZE | HE2BIG =>
@@ -665,7 +778,7 @@ Proof.
       split; [now rewrite G8|]. rewrite quiet_queue_idle by (apply Hq; reflexivity). discriminate.
     + destruct (Z.ltb 0 st) eqn:E1; [apply Z.ltb_lt in E1; lia|].
       destruct (Z.eqb st 0) eqn:E2; [apply Z.eqb_eq in E2; lia|].
-      inversion H; subst. exists a. split; [reflexivity|]. split; [cbn [set_badcmds set_comstate relayclient]; now rewrite G8|].
+      inversion H; subst. exists a. split; [reflexivity|]. split; [change (Irel (a_cert a) (relkey s2)); now rewrite G8|].
       split; [reflexivity|]. unfold RcS. cbn [set_badcmds set_comstate comstate mailfrom rcpts rcptcount goodrcpt].
       rewrite G1, G2, G3, G4, G5. exact HR.
   - (* 1 QUIT *)
@@ -716,9 +829,9 @@ Proof.
     { destruct Hcs as [E|[E|[E|[E|E]]]]; rewrite E in Emask; auto; exfalso; apply Emask; reflexivity. }
     destruct (h_from o s (skipn (length name) l) (length l)) as [[e h'] s'] eqn:Eh.
     destruct (h_from_spec _ _ _ _ _ _ _ HRI HA Hc Eh) as (a' & Htr & Hqu & HI' & Hres).
-    destruct h'; inversion H; subst; try contradiction;
+    destruct h'; inversion H; subst;
       exists a'; (split; [exact Htr|]); (split; [exact HI'|]);
-      try (split; [exact Hqu|exact Hres]); try (split; [right; exact Hqu|exact Hres]).
+      try (split; [exact Hqu|exact Hres]); try (split; [right; exact Hqu|exact Hres]); try (rewrite Hqu; discriminate).
   - (* 6 RCPT *)
     apply andb_true_iff in Hent as [Hent Hi]. apply andb_true_iff in Hent as [Hm Hst].
     apply N.eqb_eq in Hm. apply Z.eqb_eq in Hst. apply Nat.eqb_eq in Hi. subst mask st i.
@@ -726,9 +839,9 @@ Proof.
     { destruct Hcs as [E|[E|[E|[E|E]]]]; rewrite E in Emask; auto; exfalso; apply Emask; reflexivity. }
     destruct (h_rcpt o s (skipn (length name) l)) as [[e h'] s'] eqn:Eh.
     destruct (h_rcpt_spec _ _ _ _ _ _ HRI HA Hc Eh) as (a' & Htr & Hqu & HI' & Hres).
-    destruct h'; inversion H; subst; try contradiction;
+    destruct h'; inversion H; subst;
       exists a'; (split; [exact Htr|]); (split; [exact HI'|]);
-      try (split; [exact Hqu|exact Hres]); try (split; [right; exact Hqu|exact Hres]).
+      try (split; [exact Hqu|exact Hres]); try (split; [right; exact Hqu|exact Hres]); try (rewrite Hqu; discriminate).
   - (* 7 DATA *)
     apply N.eqb_eq in Hent. subst mask.
     assert (Hc : comstate s = 64%N).
@@ -746,7 +859,7 @@ Proof.
     + inversion H; subst. exists a'. split; [exact Htr|]. split; [exact HI'|].
       destruct Hres as (Hqu & Hres). split; [left; exact Hqu|exact Hres].
   - (* 8 STARTTLS *)
-    inversion H; subst. apply post_quiet_keep; [exact HRI|reflexivity|discriminate].
+    destruct (negb (esmtp s)); inversion H; subst; apply post_quiet_keep; first [exact HRI|reflexivity|discriminate].
   - (* 9 AUTH *)
     apply andb_true_iff in Hent as [Hm16 Hent]. apply N.eqb_eq in Hm16. subst mask.
     assert (Hc16 : comstate s = 16%N).
@@ -855,7 +968,7 @@ Proof.
   unfold trace_ok, queue_ok, run_session. cbn [trace_run trace_step queue_run queue_step].
   apply serve_spec; [split|reflexivity|split; discriminate].
   - unfold init_state, Rc, a_init. cbn. repeat split; auto.
-  - unfold Irel, init_state. cbn. discriminate.
+  - unfold Irel, relkey, init_state. cbn. split; [discriminate|congruence].
 Qed.
 
 (** ---------- readable corollaries ---------- *)
@@ -878,34 +991,41 @@ Proof.
   apply bytes_eqb_eq in Eb. exists a, f, rs. auto.
 Qed.
 
-(** no open relay: a recipient outside rcpthosts is accepted only if the relay list matched the client or an AUTH
-    succeeded earlier on the same connection (a note [NAuth name], name not empty, stands before it in the trace) *)
+(** no open relay: a recipient outside rcpthosts is accepted only if the relay list matched the client, or an AUTH
+    succeeded earlier on the same connection (a note [NAuth name], name not empty, stands before it in the trace), or
+    tls_verify() accepted a client certificate earlier on the same connection (a note [NCert name] stands before it) *)
 Theorem remote_rcpt_needs_relay chunks pre addr post :
-  run_session o chunks = pre ++ Note (NRcpt addr RNotLocal) :: post -> (0 < o_relay o)%Z \/ has_auth pre = true.
+  run_session o chunks = pre ++ Note (NRcpt addr RNotLocal) :: post ->
+  (0 < o_relay o)%Z \/ has_auth pre = true \/ has_cert pre = true.
 Proof.
   intros E. destruct (session_trace_ok chunks) as [Ht _]. unfold trace_ok in Ht. rewrite E in Ht.
   destruct (trace_run_prefix pre _ a_init Ht) as (a & Ha).
   rewrite trace_run_app, Ha in Ht. cbn [trace_run trace_step] in Ht.
   pose proof (trace_run_auth o _ _ _ Ha) as Hau. cbn [a_auth a_init orb] in Hau.
+  pose proof (trace_run_cert o _ _ _ Ha) as Hce. cbn [a_cert a_init orb] in Hce.
   destruct (a_txn a) as [[f rs]|]; [|congruence].
   destruct (match f, a_stored a with [], S _ => true | _, _ => false end); [congruence|].
   destruct (Nat.leb MAXRCPT (a_stored a)); [congruence|].
   destruct (Z.ltb 0 (o_relay o)) eqn:Er; [apply Z.ltb_lt in Er; left; exact Er|].
-  destruct (a_auth a) eqn:Eau; [right; now rewrite <- Hau|]. simpl in Ht. congruence.
+  destruct (a_auth a) eqn:Eau; [right; left; now rewrite <- Hau|].
+  destruct (a_cert a) eqn:Ece; [right; right; now rewrite <- Hce|]. simpl in Ht. congruence.
 Qed.
 
 (** the submission port takes mail only from entitled clients: MAIL FROM is accepted there only if the relay list matched
-    the client or an AUTH succeeded earlier on the same connection *)
+    the client, an AUTH succeeded earlier on the same connection, or a client certificate was accepted earlier on it *)
 Theorem submission_mail_needs_entitlement chunks pre f post :
-  o_submission o = true -> run_session o chunks = pre ++ Note (NMail f) :: post -> (0 < o_relay o)%Z \/ has_auth pre = true.
+  o_submission o = true -> run_session o chunks = pre ++ Note (NMail f) :: post ->
+  (0 < o_relay o)%Z \/ has_auth pre = true \/ has_cert pre = true.
 Proof.
   intros Hs E. destruct (session_trace_ok chunks) as [Ht _]. unfold trace_ok in Ht. rewrite E in Ht.
   destruct (trace_run_prefix pre _ a_init Ht) as (a & Ha).
   rewrite trace_run_app, Ha in Ht. cbn [trace_run trace_step] in Ht.
   pose proof (trace_run_auth o _ _ _ Ha) as Hau. cbn [a_auth a_init orb] in Hau.
+  pose proof (trace_run_cert o _ _ _ Ha) as Hce. cbn [a_cert a_init orb] in Hce.
   destruct (a_phase a); try congruence. rewrite Hs in Ht. cbn [andb] in Ht.
   destruct (Z.ltb 0 (o_relay o)) eqn:Er; [apply Z.ltb_lt in Er; left; exact Er|].
-  destruct (a_auth a) eqn:Eau; [right; now rewrite <- Hau|]. simpl in Ht. congruence.
+  destruct (a_auth a) eqn:Eau; [right; left; now rewrite <- Hau|].
+  destruct (a_cert a) eqn:Ece; [right; right; now rewrite <- Hce|]. simpl in Ht. congruence.
 Qed.
 
 (** AUTH is accepted only in ESMTP mode: the last greeting accepted before it was an EHLO (C09) *)
@@ -950,8 +1070,9 @@ Theorem mail_size_checked s arg len evs s' : h_from o s arg len = (evs, H0, s') 
 Proof.
   unfold h_from. intros H.
   destruct (o_addr o false arg) as [| | |addr more cls]; try discriminate;
-    (match type of H with context [subm_gate o ?sc] => destruct (subm_gate o sc) as [[al s1] pre] end);
-    (destruct pre; [|discriminate]); (destruct (negb al); [discriminate|]); try discriminate.
+    (match type of H with context [subm_gate o ?sc] => destruct (subm_gate o sc) as [[res s1] pre] eqn:Eg end);
+    (destruct res as [al|hf]; [|exfalso; apply (subm_gate_fail _ _ _ _ _ Eg); congruence]);
+    (destruct (negb al); [discriminate|]); try discriminate.
   match type of H with context [if ?b then None else more] => destruct (if b then None else more) end; try discriminate.
   destruct (match more with Some m => o_ext o m | None => Ext_ok 0 0 None end) as [tb bonus body8| |]; try discriminate.
   destruct (Nat.ltb (CMD_LINE_MAX + bonus) len); try discriminate.
